@@ -217,8 +217,27 @@ impl Cv for Canvas3 {
     }
 }
 
+impl<C: Cv> St<C> {
+    /// Fingerprint of the canvas's HIDDEN drag state, taken through the public
+    /// API on copies of the canvas (it is `Copy`): the views that a drag event at
+    /// two different positions would lead to.  Without it two states that differ
+    /// only in a stale internal drag handle (same view, no drag according to the
+    /// shadow record) would be merged although their futures differ - which is
+    /// exactly how a canvas that forgets to end a drag escaped the search.
+    fn hidden_key(&self) -> Vec<u32> {
+        let mut k = vec![];
+        for p in [0u8, 3] {
+            let mut c = self.canvas.clone();
+            let _ = guard(|| c.drag(p));
+            k.extend(c.view_bits());
+        }
+        k
+    }
+}
+
 impl<C: Cv> Hash for St<C> {
     fn hash<H: Hasher>(&self, h: &mut H) {
+        self.hidden_key().hash(h);
         self.canvas.view_bits().hash(h);
         self.size.hash(h);
         self.drag.map(|d| (d.rotate, d.key)).hash(h);
@@ -229,6 +248,7 @@ impl<C: Cv> Hash for St<C> {
 impl<C: Cv> PartialEq for St<C> {
     fn eq(&self, o: &Self) -> bool {
         self.canvas.view_bits() == o.canvas.view_bits()
+            && self.hidden_key() == o.hidden_key()
             && self.size == o.size
             && self.drag.map(|d| (d.rotate, d.key)) == o.drag.map(|d| (d.rotate, d.key))
             && self.fail.as_ref().map(|f| f.0) == o.fail.as_ref().map(|f| f.0)
@@ -548,10 +568,10 @@ impl Check for C18 {
     }
     fn meta(&self, tier: Tier) -> Meta {
         Meta {
-            rule: "explicit-state breadth-first search (stateright) whose transition function calls the real Canvas2 / Canvas3 methods; actions: interact(cursor in {none, position x {no drag, pan, rotate}}, scroll), begin_drag, drag, end_drag, zoom(scroll, position or none), resize, interact(new image size, position x {pan, rotate}) i.e. a resize and a drag event in one call, from 2 (2D) / 4 (3D) initial canvases (default; zoomed and panned; rotated; rotated the other way and zoomed), over screen positions {corner, centre, far off-canvas (-300,200), (32,60) sharing its x with the centre, (3,7)}, scrolls {0, +100, -100, 37.5}, image sizes {64x64, 100x50, 33x77}; state key = bit pattern of the view components + image size + shadow record of the active drag (view and position at its start) + depth; per-transition obligations: zoom about p keeps the model point under p (1e-4 relative), while a pan is active the point grabbed at its start stays under the cursor, rotation leaves centre and scale bit-identical with pitch in [0,pi] and |yaw| < 2pi, changed == false when the view is bit-identical, world_to_model == translate*rotate*scale of the components; every obligation is an `always` property; counts: states = unique states, transitions = generated states".into(),
+            rule: "explicit-state breadth-first search (stateright) whose transition function calls the real Canvas2 / Canvas3 methods; actions: interact(cursor in {none, position x {no drag, pan, rotate}}, scroll), begin_drag, drag, end_drag, zoom(scroll, position or none), resize, interact(new image size, position x {pan, rotate}) i.e. a resize and a drag event in one call, from 2 (2D) / 4 (3D) initial canvases (default; zoomed and panned; rotated; rotated the other way and zoomed), over screen positions {corner, centre, far off-canvas (-300,200), (32,60) sharing its x with the centre, (3,7)}, scrolls {0, +100, -100, 37.5}, image sizes {64x64, 100x50, 33x77}; state key = bit pattern of the view components + image size + shadow record of the active drag (view and position at its start) + a fingerprint of the canvas's hidden drag state (the views a drag event at two positions would lead to, probed on copies) + depth; per-transition obligations: zoom about p keeps the model point under p (1e-4 relative), while a pan is active the point grabbed at its start stays under the cursor, rotation leaves centre and scale bit-identical with pitch in [0,pi] and |yaw| < 2pi, changed == false when the view is bit-identical, world_to_model == translate*rotate*scale of the components; every obligation is an `always` property; counts: states = unique states, transitions = generated states".into(),
             bounds: match tier {
-                Tier::Quick => "depth 3 (4 positions, 3 scrolls)".into(),
-                Tier::Thorough => "depth 4 (5 positions, 4 scrolls) and depth 5 (4 positions, 3 scrolls)".into(),
+                Tier::Quick => "every history of up to 3 events is checked (search depth 4: the states after a 4th event are generated, not checked) over 4 positions, 3 scrolls".into(),
+                Tier::Thorough => "every history of up to 3 events over 5 positions, 4 scrolls and of up to 4 events over 4 positions, 3 scrolls (search depths 4 and 5: stateright checks the states strictly below the target depth)".into(),
             },
             assumptions: vec!["the drag handle is opaque; the state key uses the view and cursor at the start of the drag, of which the handle is a function".into()],
             crash_policy: CrashPolicy::Violation,
@@ -563,7 +583,7 @@ impl Check for C18 {
     }
     fn run_unit(&self, tier: Tier, unit: usize, cx: &mut Cx) {
         let runs: &[(usize, bool)] = match tier {
-            Tier::Quick => &[(3, false)],
+            Tier::Quick => &[(4, false)],
             Tier::Thorough => &[(4, true), (5, false)],
         };
         for (i, (depth, big)) in runs.iter().enumerate() {
